@@ -248,7 +248,27 @@ ASSUMPTIONS = [
     "frame completeness is checked on the executor's write log for forward()/clear() of: LIF, GLIF1, QIF, EIF, the four synapses, six reducers; adaptive neurons, connections (parameters only), trainers (monitors' reducers) are covered by the bounded save/restore stand-in",
 ]
 
+
+@contract(P, "RecurrentSerial[frame]", [("inferno/neural/network.py", "RecurrentSerial.__init__"), ("inferno/neural/network.py", "RecurrentSerial.forward"), ("inferno/neural/network.py", "RecurrentSerial.wiring")], tags=("frame",), min_obligations=3)
+def recurrent_frame(c):
+    """the one piece of state a recurrent layer owns itself - the feedback population's spikes of the previous step - is
+    written by forward into a PERSISTENT buffer (it is part of the state dictionary once the layer has run)"""
+    from . import c17_layers as c17
+
+    log = []
+    comps = [c17.component(c, n_, k_, log)[0] for n_, k_ in (("ff", "connection"), ("lat", "connection"), ("fb", "connection"), ("nff", "neuron"), ("nfb", "neuron"))]
+    lay = c.call(c17.layer_cls(c, "RecurrentSerial"), *comps)
+    c.ensure("feedback_buffer_registered_persistent", "feedback_spikes" in lay.fields.get("_buffers", {}) and "feedback_spikes" not in lay.fields.get("_non_persistent", set()))
+    lay.writes.clear()
+    out = c.outcome(c.getattr(lay, "forward"), c.pw("x", eshape=c17.SHAPE))
+    c.expect_return(out)
+    c.ensure("forward_writes_the_feedback_spikes", "feedback_spikes" in lay.writes)
+    bad = frame_violations(lay)
+    c.ensure("every_written_field_is_persisted", bad == [])
+    c.canary("canary_nothing_written", z3.BoolVal(not lay.writes))
+
 MUTANTS = [
+    dict(file="inferno/neural/network.py", func="RecurrentSerial.__init__", old='        self.register_buffer("feedback_spikes", None)', new='        self.register_buffer("feedback_spikes", None, persistent=False)', contracts=["RecurrentSerial[frame]"], name="seed C12g: the recurrent state is left out of the state dictionary"),
     dict(file=CL, func="MaxRateClassifier.rates@setter", old="        # rates are assigned directly\n        self.rates_.data = value", new="        if torch.equal(value, self.rates_.data):\n            return\n        # rates are assigned directly\n        self.rates_.data = value", contracts=["MaxRateClassifier[derived_buffers]"], name="seed C12e: setter returns early when the rates are unchanged (load hook no longer rebuilds the derived buffers)"),
     dict(file=INF, func="Module.set_extra_state", old="self._extras.update(state)", new="self._extras.update((k, v) for k, v in state.items() if v or k not in self._extras)", contracts=["Module.extras"], name="seed C12: falsy loaded extras do not overwrite"),
     dict(file=INF, func="RecordTensor.value@setter", old='f"_{self.name}_pointer"', new='f"_{self.__name}_pointer"', contracts=["RecordTensor.value@setter"], name="D3 regression: mangled base-class attribute"),
